@@ -169,3 +169,129 @@ c = contract(SERVER, "MemoryUserManager.notify_logout", props=["C10"])
 c.setup = setup_logout
 c.uses = [(SERVER, "AvailableConnections.release")]
 c.ensures(lambda S: True if S.vars["old"] is None else S.it.unbox(S.vars["ac"].fields["value"]).t == S.vars["old"].t + 1, "returns-exactly-one-slot")
+
+
+# ------------------------------------------------------------------------------------ get_user's selection loop, user tables of ANY length
+import ast as _ast  # noqa: E402
+
+from pyvc.objseq import ObjSeq, cond_opt  # noqa: E402
+from pyvc.unit import LoopSpec  # noqa: E402
+from pyvc.values import Builtin, Coro, Env  # noqa: E402
+
+HAS_LOGIN = z3.Array("user_has_login", z3.IntSort(), z3.BoolSort())
+LOGIN = z3.Array("user_login", z3.IntSort(), z3.StringSort())
+
+
+def _exact(i, login):
+    return z3.And(HAS_LOGIN[i], LOGIN[i] == login.t)
+
+
+def setup_selection(u):
+    it = u.it
+    mod = it.modules[SERVER]
+    cls = mod.attrs["MemoryUserManager"]
+    fn, _ = cls.lookup("get_user")
+    node = fn.node if hasattr(fn, "node") else None
+    if node is None:
+        from pyvc.core import Unsupported
+
+        raise Unsupported("MemoryUserManager.get_user: source not found")
+    # the selection part: statements up to and including the first `for` loop
+    body = []
+    for st in node.body:
+        if isinstance(st, _ast.Expr) and isinstance(getattr(st, "value", None), _ast.Constant):
+            continue
+        body.append(st)
+        if isinstance(st, _ast.For):
+            break
+    if not body or not isinstance(body[-1], _ast.For):
+        from pyvc.core import Unsupported
+
+        raise Unsupported("MemoryUserManager.get_user: selection loop not found")
+
+    def make(it_, idx):
+        o = Obj(mod.attrs["User"], tag="user[i]")
+        o.fields["login"] = cond_opt(it_, HAS_LOGIN[idx], SV("str", LOGIN[idx]), "login[i]")
+        return o
+
+    table = ObjSeq("users", make)
+    um = Obj(cls, tag="um")
+    um.fields["users"] = table
+    login = fresh("str", "login_arg")
+    env = Env(mod.env)
+    env.vars.update(self=um, login=login)
+
+    def run(i, a, k):
+        def go():
+            i.exec_block(body, env, "MemoryUserManager.get_user.<locals>")
+            return env.vars["user"]
+
+        return Coro(go, "get_user-selection")
+
+    return Builtin("MemoryUserManager.get_user/selection", run), [], {}, {"table": table, "login": login, "env": env}
+
+
+c = contract(SERVER, "MemoryUserManager.get_user", props=["C03"], name="MemoryUserManager.get_user/selection#any-table")
+c.setup = setup_selection
+c.assumptions.append("block contract over the selection loop of the real MemoryUserManager.get_user (`user = None; for u in self.users: ...`); the user table is a list of any length whose entries have an optional login; the rest of get_user is straight-line on the selected user and is the bounded unit's")
+
+
+def _sel_state(S_or_env, table):
+    return None
+
+
+def sel_inv(S):
+    """consumed k entries without break: none of them is an exact match; `user` is None iff none of them is anonymous,
+    otherwise it is the FIRST anonymous entry among them"""
+    it = S.it
+    table, login = S.vars["table"], S.vars["login"]
+    k = S.vars["_i"]
+    k = k.t if isinstance(k, SV) else z3.IntVal(k)
+    user = S.vars["user"]
+    i = z3.Int("i!sel")
+    no_exact = z3.ForAll([i], z3.Implies(z3.And(i >= 0, i < k), z3.Not(_exact(i, login))))
+    if user is None:
+        return z3.And(no_exact, z3.ForAll([i], z3.Implies(z3.And(i >= 0, i < k), HAS_LOGIN[i])))
+    if getattr(user, "seq_of", None) is not table:
+        return False
+    a = user.seq_index
+    return z3.And(no_exact, a >= 0, a < k, z3.Not(HAS_LOGIN[a]), z3.ForAll([i], z3.Implies(z3.And(i >= 0, i < a), HAS_LOGIN[i])))
+
+
+def sel_user_shape(it):
+    """at an arbitrary loop head `user` is None or some entry of the table (which one: constrained by the invariant)"""
+    us = it.ctx.unit_state
+    table = us.vars["table"]
+    if it.ctx.choose(2, "user-so-far") == 0:
+        return None
+    a = z3.Int(f"anon_index!{next(_sel_ctr)}")
+    return table.elem(it, a)
+
+
+import itertools as _it2  # noqa: E402
+
+_sel_ctr = _it2.count()
+c.env_hooks = {"block_loop": LoopSpec(invariants=[("no-exact-match-so-far-and-user-is-the-first-anonymous-so-far", sel_inv)], shapes={"user": sel_user_shape})}
+
+
+def sel_post(S):
+    """the selected user is the first entry whose login equals the argument; if there is none, the first anonymous
+    entry; if there is none either, None - for a table of any length"""
+    table, login = S.vars["table"], S.vars["login"]
+    res = S.result
+    i = z3.Int("i!selpost")
+    n = table.n
+    rng = z3.And(i >= 0, i < n)
+    none_exact = z3.ForAll([i], z3.Implies(rng, z3.Not(_exact(i, login))))
+    if res is None:
+        return z3.And(none_exact, z3.ForAll([i], z3.Implies(rng, HAS_LOGIN[i])))
+    if getattr(res, "seq_of", None) is not table:
+        return False
+    j = res.seq_index
+    first_exact = z3.And(_exact(j, login), z3.ForAll([i], z3.Implies(z3.And(i >= 0, i < j), z3.Not(_exact(i, login)))))
+    first_anon = z3.And(none_exact, z3.Not(HAS_LOGIN[j]), z3.ForAll([i], z3.Implies(z3.And(i >= 0, i < j), HAS_LOGIN[i])))
+    return z3.And(j >= 0, j < n, z3.Or(first_exact, first_anon))
+
+
+c.ensures(sel_post, "first-exact-login-else-first-anonymous-else-none")
+c.opts = {"solve_budget_s": 60}
